@@ -385,7 +385,8 @@ Section FluxHeader.
     - simpl. apply memb_false. apply (fp_broker c FP).
     - simpl. pose proof (hp_desc c HP) as DS. fold st in DS. unfold safe_quoted in DS.
       rewrite forallb_forall in DS. intro X. apply DS in X.
-      repeat (apply andb_true_iff in X; destruct X as [X ?]). apply N.leb_le in X. unfold nl in X. lia.
+      repeat (apply andb_true_iff in X; destruct X as [X ?]).
+      vm_compute in X. discriminate X.
     - simpl. pose proof (hp_name c HP) as NM. fold st in NM. unfold safe_name in NM.
       destruct (st_name st) eqn:N0; try discriminate. rewrite forallb_forall in NM. intro X. apply NM in X.
       apply andb_true_iff in X. destruct X as [X _]. apply safe_char_plain in X. destruct X as [_ [X _]]. congruence.
